@@ -99,7 +99,7 @@ PIPE_RULE = (
     "non-trivial = set at some index by a function, program, aggregation or skip window, calibration factor != 1, or clipped at a limit"
 )
 RULE = RULE + PIPE_RULE
-EXPECTED_BRANCHES += ["allrow.scenario", "allrow.insert", "ratio.dynamic+output", "ratio.output-only", "ratio.dynamic-only", "ratio.numerator_near_tolerance", "ratio.numerator_ordinary"]
+EXPECTED_BRANCHES += ["derivscen.first_point", "derivscen.later", "allrow.scenario", "allrow.insert", "ratio.dynamic+output", "ratio.output-only", "ratio.dynamic-only", "ratio.numerator_near_tolerance", "ratio.numerator_ordinary"]
 EXPECTED_BRANCHES += [
     "stage.data", "stage.data.transfer", "stage.function.dynamic", "stage.function.precompute", "stage.function.postcompute", "stage.aggregation",
     "stage.skip.dynamic", "stage.skip.precompute", "stage.skip.postcompute", "stage.program.number", "stage.program.pertime", "stage.program.other",
@@ -714,8 +714,48 @@ def run_all_row(ctx):
                 break
 
 
+def run_derivative_scenario(ctx):
+    """'a scenario on a function parameter suspends the function from its first overwrite year onward, so the scenario values are used there' -- also when the
+    function parameter is a DERIVATIVE parameter (its function is a rate of change): before the first overwrite year the value is stepped forward with the rate,
+    from that year on it is the scenario value, and parameters that read it see those values."""
+    from vlib import genfw
+
+    r = ctx.rng
+    P = dict(timescale=None, min=None, max=None, timed=False, targetable=False, databook=False, value={})
+    for i in range(ctx.n(4, 40)):
+        dt = r.choice([0.5, 1.0, 0.25])
+        rate = r.choice([0.2, -0.1, 0.0])
+        v0 = r.choice([1.0, 2.5])
+        k = [0, 2, 1, 3][i % 4]                      # the scenario starts at the first time point, or k steps later
+        Y = 2000.0 + k * dt
+        yv = r.choice([5.0, 0.5])
+        nsteps = 6
+        spec = {"comps": [{"name": "c0", "kind": "normal", "databook": True, "init": {"pa": 100.0}}, {"name": "c1", "kind": "normal", "databook": True, "init": {"pa": 10.0}}], "characs": [],
+                "pars": [dict(P, name="dd", format="number", function=repr(rate), derivative=True, databook=True, value={"pa": v0}), dict(P, name="ra0", format="rate", function="0.01*dd")],
+                "transitions": [["c0", "c1", "ra0"]], "pops": ["pa"], "transfers": [], "interactions": [], "settings": [2000.0, 2000.0 + nsteps * dt, dt],
+                "scenarios": [{"par": "dd", "pop": "pa", "t": [Y], "y": [yv], "interp": "previous"}]}
+        key = {"api": "Model.update_pars", "oracle": "derivative-scenario", "first_point": k == 0}
+        try:
+            pop = genfw.run(spec).pops[0]
+            got = [float(x) for x in pop.get_par("dd").vals]
+            reader = [float(x) for x in pop.get_par("ra0").vals]
+        except Exception as ex:
+            if core.impl_raised(ctx, ex):
+                ctx.breaks.pop()
+                ctx.violation(key, f"a parameter scenario from {Y} on the derivative parameter dd (rate {rate}, start value {v0}, dt {dt}) makes the run fail: {type(ex).__name__}: {str(ex)[:160]}", {"kind": "derivative_scenario", "spec": spec})
+                continue
+            raise
+        ctx.count("derivscen.first_point" if k == 0 else "derivscen.later")
+        ctx.case({**key, "dt": dt, "rate": rate, "k": k}, nontrivial=True, sample={"Y": Y, "rate": rate})
+        want = [v0 + j * rate * dt if j < k else yv for j in range(nsteps + 1)]
+        if any(abs(g - w_) > 1e-9 * max(1.0, abs(w_)) for g, w_ in zip(got, want)) or any(abs(rv - 0.01 * w_) > 1e-9 for rv, w_ in zip(reader, want)):
+            ctx.violation(key, f"derivative parameter dd (rate {rate}, start value {v0}, dt {dt}) with a scenario value {yv} from {Y}: values {got}, expected {want} (stepped with the rate before {Y}, the scenario value from then on); the reader 0.01*dd has {reader}",
+                          {"kind": "derivative_scenario", "spec": spec, "want": want})
+
+
 def run(ctx):
     run_series(ctx)
+    run_derivative_scenario(ctx)
     run_init_scaled(ctx)
     run_ratio_function(ctx)
     run_all_row(ctx)
@@ -727,6 +767,14 @@ def replay(ctx, data):
     if rp.get("kind") == "init_scaled":
         print("spec:", rp["spec"]); print("re-run: vlib.genfw.build(spec) with numpy.linalg.lstsq wrapped; compare b with databook x y_factor x meta_y_factor (x denominator)")
         return 0
+    if rp.get("kind") == "derivative_scenario":
+        from vlib import genfw
+        try:
+            got = [float(x) for x in genfw.run(rp["spec"]).pops[0].get_par("dd").vals]
+        except Exception as ex:
+            print("run fails:", type(ex).__name__, str(ex)[:200]); return 1
+        print("values:", got, "expected:", rp.get("want"))
+        return 1 if rp.get("want") and any(abs(g - w_) > 1e-9 * max(1.0, abs(w_)) for g, w_ in zip(got, rp["want"])) else 0
     if rp.get("kind") == "all_row":
         print("spec:", rp["spec"], "how:", rp["how"]); print("re-run: props/c06.run_all_row (build, edit population", rp["spec"]["pops"][0], "only, compare the others with databook x calibration factor)")
         return 0
